@@ -116,7 +116,7 @@ def check_field(ctx, c):
         ctx.fail(dict(mech, what="vector-field-shape"), f"shape {u.shape}")
         return
     # ---- white box: output == oracle sum with the solenoidal projector -----------------------------------
-    if abs(float(gen.mean_u) - mean_u) > 0:
+    if not abs(float(gen.mean_u) - mean_u) <= 0:
         ctx.fail(dict(mech, what="mean_u-not-applied"), f"generator.mean_u = {gen.mean_u}, assigned {mean_u}")
         return
     want, proj, k = _oracle_field(gen, srf.model, x)
@@ -160,7 +160,7 @@ def check_field(ctx, c):
         noise = 50 * 2.3e-16 * max(1.0, common.maxabs(u)) / h * dim
         rel = float(np.max(np.abs(div) / np.maximum(gnorm, 1e-300)))
         ctx.resolve("divergence_over_gradient", rel)
-        if np.any(np.abs(div) > 1e-6 * gnorm + noise):
+        if not np.all(np.abs(div) <= 1e-6 * gnorm + noise):
             i = int(np.argmax(np.abs(div) - 1e-6 * gnorm))
             ctx.fail(dict(mech, what="divergence!=0"), f"{c['name']} dim {dim}: div u = {div[i]:.3e}, |grad u| = {gnorm[i]:.3e} (h={h:.2e})")
             return
@@ -197,7 +197,7 @@ def check_ensemble(ctx, c):
     ctx.resolve("projector_fraction_resolution", bound)
     for i in range(dim):
         got = p2[i] / cnt
-        if abs(got - FRAC[dim][i]) > bound:
+        if not abs(got - FRAC[dim][i]) <= bound:
             ctx.fail(dict(mech, what="component-variance-fractions", comp=i), f"E[p_{i}^2] = {got:.5f} expected {FRAC[dim][i]:.5f} (+-{bound:.5f}, {cnt} samples)")
             return
     # (b) mean = (mean_u, 0[, 0]) and component variances mean_u^2 var frac_i: 7-sigma tests over independent seeds
@@ -208,13 +208,13 @@ def check_ensemble(ctx, c):
             want_m = mu if i == 0 else 0.0
             sd = math.sqrt(mu * mu * var * FRAC[dim][i])
             se = sd / math.sqrt(ns)
-            if abs(float(np.mean(v)) - want_m) > 7 * se:
+            if not abs(float(np.mean(v)) - want_m) <= 7 * se:
                 ctx.fail(dict(mech, what="ensemble-mean", comp=i), f"mean of component {i} = {np.mean(v):.4f}, expected {want_m} (+-{7*se:.4f})")
                 return
             # variance of a sum of N iid bounded-fourth-moment terms: relative standard error ~ sqrt((kurt-1)/ns), kurtosis <= 3 + 3/N * c
             rel_se = math.sqrt(2.5 / ns)
             sv = float(np.var(v, ddof=1))
-            if abs(sv - sd * sd) > 7 * rel_se * sd * sd:
+            if not abs(sv - sd * sd) <= 7 * rel_se * sd * sd:
                 ctx.fail(dict(mech, what="ensemble-variance", comp=i), f"variance of component {i} = {sv:.4f}, expected {sd*sd:.4f} (+-{7*rel_se*sd*sd:.4f})")
                 return
 
